@@ -249,11 +249,12 @@ type slotCase struct {
 
 // Priorities (the per-entry budget of the quick tier cuts the list from the end):
 //
-//	0  the entry's own families and moduli: the modulus itself, every flag combination, both byte orders, every slot
-//	1  the entry's own families: m-1, m+1, 2m without flags; packed-coefficient patterns
-//	2  all other families: the modulus itself without flags at the first slot, after a tag byte and at the last slot
-//	3  the entry's own families: m-1, m+1, 2m with flags
-//	4  all other families: neighbours and flag combinations
+//	0  the entry's own families and moduli: the modulus itself, both byte orders, every slot
+//	1  the same with every free flag combination in the top bits
+//	2  the entry's own families: m-1, m+1, 2m without flags; packed-coefficient patterns
+//	3  all other families: the modulus itself without flags at the first slot, after a tag byte and at the last slot
+//	4  the entry's own families: m-1, m+1, 2m with flags
+//	5  all other families: neighbours and flag combinations
 func slotCases(e *Entry, n int) []slotCase {
 	fam := familiesOf(e)
 	maxOff := 24
@@ -269,16 +270,18 @@ func slotCases(e *Entry, n int) []slotCase {
 			vals := slotValues(name, m, w)
 			prio := func(sv slotValue) int {
 				switch {
-				case relevant && sv.exact:
+				case relevant && sv.exact && !sv.flags:
 					return 0
-				case relevant && !sv.flags:
+				case relevant && sv.exact:
 					return 1
-				case !relevant && sv.exact && !sv.flags:
+				case relevant && !sv.flags:
 					return 2
-				case relevant:
+				case !relevant && sv.exact && !sv.flags:
 					return 3
+				case relevant:
+					return 4
 				}
-				return 4
+				return 5
 			}
 			for _, off := range slotOffsets(n, w, e.LenFields, relevant, maxOff) {
 				for _, sv := range vals {
@@ -310,7 +313,7 @@ func slotCases(e *Entry, n int) []slotCase {
 			for i := range b {
 				b[i] = p.unit[i%len(p.unit)]
 			}
-			cases = append(cases, slotCase{1, p.name, off, b})
+			cases = append(cases, slotCase{2, p.name, off, b})
 		}
 		// the whole encoding, the encoding after / before a 32/64-byte seed or hash, and single polynomials
 		fill(0, n)
@@ -343,7 +346,14 @@ func slotSweep(d *directTB, e *Entry) (run, cut int) {
 	if e.Valid == nil {
 		return 0, 0
 	}
-	budget := vlib.N(1200, 40000) / max(1, e.Cost)
+	// per-entry case budget (counts, not time): long encodings are costly to parse and have few integer slots
+	budget := func(n int) int {
+		base := vlib.N(300, 40000)
+		if n > 600 && !vlib.Thorough() {
+			base = 120
+		}
+		return max(16, base/max(1, e.Cost))
+	}
 	nv := max(1, e.NValid)
 	seenLen := map[int]bool{}
 	var vs [][]byte
@@ -357,7 +367,7 @@ func slotSweep(d *directTB, e *Entry) (run, cut int) {
 	}
 	for _, v := range vs {
 		cases := slotCases(e, len(v))
-		b := budget / len(vs)
+		b := max(16, budget(len(v))/len(vs))
 		if len(cases) > b {
 			cut += len(cases) - b
 			cases = cases[:b]
